@@ -38,7 +38,9 @@ func New() Queue {
       queue = append(queue, i)
       m.Unlock()
     }
+    m.Lock()
     closed = true
+    m.Unlock()
   }()
   go func() {
     defer close(o.output)
@@ -59,7 +61,9 @@ func New() Queue {
         outCount++
       }
     }
+    m.Lock()
     fmt.Printf("Closing Queue Size: %d %d / %d\n", len(queue), inCount, outCount)
+    m.Unlock()
     fmt.Printf("Closing Buffered Queue\n")
   }()
   return &o
